@@ -61,7 +61,9 @@ class Rig:
                     for f in self.conns:
                         if not f.closed:
                             out = a[f.peer]
-                            f.hsplan = ["ok" if out == "ok" else "block" if out == "block" else ("fault", "ECONNRESET")]
+                            self.aborts = getattr(self, "aborts", 0) + 1     # an aborted handshake: reset, TLS EOF or another TLS error
+                            f.hsplan = ["ok" if out == "ok" else "block" if out == "block" else
+                                        ("fault", ("ECONNRESET", "SSLEOF", "SSLERR")[self.aborts % 3])]
                     # sockets come into being when accepted: register them as the kernel would hand them out
                     for f in list(self.listener().pending):
                         if f not in self.mod.registry:
